@@ -35,6 +35,8 @@ func init() {
 			{Name: "catch runs before the writer is restored (defer order)", File: "eval.go", Old: "\tst.Writer = buf\n\tdefer func() { st.Writer = writer }()\n\n\treturn st.executeList(try.List)", New: "\tst.Writer = buf\n\n\tdefer func() { st.Writer = writer }()\n\tdefer func() { _ = recover() }()\n\treturn st.executeList(try.List)", Rule: "C13.buffer"},
 			{Name: "try body writes straight to the output", File: "eval.go", Old: "\tst.Writer = buf\n\tdefer func() { st.Writer = writer }()\n", New: "\tdefer func() { st.Writer = writer }()\n", Rule: "C13.buffer"},
 			{Name: "catch variable leaks: scope popped only when a catch list exists", File: "eval.go", Old: "\t\t\t\tif try.Catch.Err != nil {\n\t\t\t\t\tst.releaseScope()\n\t\t\t\t}", New: "\t\t\t\tif try.Catch.Err != nil && try.Catch.List == nil {\n\t\t\t\t\tst.releaseScope()\n\t\t\t\t}", Rule: "C13.catchvar"},
+			{Name: "catch variable bound with SetOrLet (agent seed C13/4)", File: "eval.go", Old: "\t\t\t\t\tst.scope.variables[try.Catch.Err.Ident] = reflect.ValueOf(r)", New: "\t\t\t\t\tst.SetOrLet(try.Catch.Err.Ident, r)", Rule: "C13.catchvar"},
+			{Name: "equivalent: catch variable declared with Let", File: "eval.go", Old: "\t\t\t\t\tst.scope.variables[try.Catch.Err.Ident] = reflect.ValueOf(r)", New: "\t\t\t\t\tst.Let(try.Catch.Err.Ident, r)", Rule: "-"},
 			{Name: "equivalent: an unused Runtime field is added", File: "eval.go", Old: "type Runtime struct {\n\t*escapeeWriter\n\t*scope\n\tcontent func(*Runtime, Expression)\n", New: "type Runtime struct {\n\t*escapeeWriter\n\t*scope\n\tcontent func(*Runtime, Expression)\n\tdepth   int\n", Rule: "-"},
 			{Name: "equivalent: buffer copied to st.Writer, which the earlier-running defer already restored", File: "eval.go", Old: "\t\t\tio.Copy(writer, buf)\n", New: "\t\t\tio.Copy(st.Writer, buf)\n", Rule: "-"},
 			{Name: "parseTry also ends at else", File: "parse.go", Old: "list, next := t.itemList(nodeCatch, nodeEnd)", New: "list, next := t.itemList(nodeCatch, nodeElse, nodeEnd)", Rule: "C13.parse"},
@@ -372,12 +374,43 @@ func runC13(c *an.Ctx) {
 			c.Bad("C13.catchvar", handler.Name+"/store", pos, nil, "the catch variable is stored into a scope the handler did not push: it stays visible after the try statement")
 		}
 	}
+	nBind := 0
 	for _, pos := range r.declOK {
 		if !seen[pos] {
 			seen[pos] = true
+			nBind++
 			c.OK("C13.catchvar", handler.Name+"/store", pos, "the catch variable lives in a scope pushed for it")
 		}
 	}
+	// the binding is a declaration in the handler's own scope — a store into the current scope's variables
+	// or Runtime.Let — never an assignment that looks the name up in the enclosing scopes (Set, SetOrLet,
+	// setValue …): that would overwrite a visible variable (or the caller's VarMap entry) of the same name
+	rebinders := p.FnsReaching("(*jet.Runtime).setValue")
+	hinfo = handler.Info()
+	var hcalls []*ast.CallExpr
+	an.InspectOwn(handler, func(n ast.Node) bool {
+		if call, ok := n.(*ast.CallExpr); ok {
+			hcalls = append(hcalls, call)
+		}
+		return true
+	})
+	for _, call := range hcalls {
+		name := an.CalleeName(hinfo, call)
+		g := p.FnByObj[an.Callee(hinfo, call)]
+		switch {
+		case name == "(*jet.Runtime).Let":
+			if r.callDepth[call] >= 1 {
+				nBind++
+				c.OK("C13.catchvar", handler.Name+"/store", call.Pos(), "the catch variable is declared with Let in a scope pushed for it")
+			} else {
+				c.Bad("C13.catchvar", handler.Name+"/store", call.Pos(), nil, "the catch variable is declared with Let into a scope the handler did not push")
+			}
+		case name == execList:
+		case g != nil && rebinders[g]:
+			c.Bad("C13.catchvar", handler.Name+"/rebinds", call.Pos(), nil, "the recover handler of try calls %s, which assigns to the nearest visible variable of that name instead of declaring the catch variable: a variable of the enclosing scopes (or the caller's VarMap) is overwritten with the error and stays changed after the try statement", name)
+		}
+	}
+	c.Expect("C13.catchvar", "bindings of the catch variable", nBind, 1)
 
 	// ---------------------------------------------------------------- C13.parse
 	if pt := c.Fn("C13.parse", "(*Template).parseTry"); pt != nil {
